@@ -127,6 +127,9 @@ class C03(Property):
             spec["end"] = max(0.5, max(x["start"] for x in tc) - rnd.choice([0, 1]))
         elif mode == "far":
             spec["end"] = 150
+        if i % 10 == 3 and spec["links"] and not spec.get("trunks"):
+            # one link is 'forgotten': the first run is refused, the link is added and the composition is run again
+            spec["defer_link"] = rnd.randrange(len(spec["links"]))
         return spec
 
     def run(self, spec):
@@ -138,6 +141,10 @@ class C03(Property):
             return self._run_no_time(out, spec)
         rep = sched_run.run_spec(spec, check_model=False)
         out.count("compositions")
+        if spec.get("defer_link") is not None:
+            out.count("runs_after_a_refused_first_attempt")
+            if rep.first_attempt != "FinamConnectError":
+                out.viol("forgotten_link_not_refused", f"first run with an unconnected input ended with {rep.first_attempt}", spec=spec)
         end = spec["end"]
         if rep.outcome == "StepCapExceeded":
             out.viol("no_termination", f"more updates than the harness cap: {rep.message}", spec=spec)
@@ -222,7 +229,7 @@ class C03(Property):
 
     def coverage_gaps(self, counters, tier):
         need = ["updates_observed", "lifecycles_checked", "adapter_finalize_checked", "end_equals_start_runs", "runs_with_never_updated_component",
-                "compositions_without_time_components"] + ["end_mode_" + m for m in ("on", "before", "after", "start", "late_start", "far")]
+                "compositions_without_time_components", "runs_after_a_refused_first_attempt"] + ["end_mode_" + m for m in ("on", "before", "after", "start", "late_start", "far")]
         gaps = [f"{k} never observed" for k in need if not counters.get(k)]
         if counters.get("aborted_runs", 0) > 0.05 * max(1, counters.get("compositions", 0)):
             gaps.append(f"{counters.get('aborted_runs')} of {counters.get('compositions')} runs aborted for reasons outside this property")
